@@ -786,6 +786,12 @@ def drive(check, tier, seed, budget_s=None, workers=None, log=print):
             reported.append((path, mviol, False))
         else:
             reported.append((path, mviol, True))
+    for k_ in agg.stats:
+        # a check may itself recognise an open finding during the search (so that the search goes on): it tallies 'known-finding:<sig>'
+        if k_.startswith('known-finding:'):
+            known = next((o for o in opens if o['sig'] == k_[len('known-finding:'):]), None)
+            if known is not None:
+                seen_known.setdefault(known['sig'], known)
     for sig, k in seen_known.items():
         log('KNOWN-FINDING: property=%s sig=%s %s' % (check.ID, sig, k['text']))
     for o in opens:
